@@ -153,6 +153,24 @@ pub fn seed_files_gap() -> Vec<(String, Vec<u8>)> {
     files
 }
 
+/// complete chunks followed by a zero-length newest chunk file (the image a
+/// crash right after a rotation's file creation leaves): recovery removes that
+/// file, so an opener that acts before (or without) owning the lock shows
+pub fn seed_files_empty_newest() -> Vec<(String, Vec<u8>)> {
+    let mut sut = crate::sut::Sut::open(Cfg::records(3)).expect("seed store");
+    for i in 0..2u64 {
+        let _ = sut.call(&Op::Append(vec![((1, i), payload((1, i), 0))]));
+    }
+    sut.flush_wait().expect("seed flush");
+    sut.close();
+    let mut files = imagex::read_files(&sut.dir.path);
+    // after the second append the first chunk is full: the newest file holds only
+    // its head snapshot; cut it to zero length
+    assert!(files.len() >= 2, "empty-newest seed needs a rotated chunk");
+    files.last_mut().unwrap().1.clear();
+    files
+}
+
 fn restore(dir: &str, files: &[(String, Vec<u8>)]) {
     for (n, _) in crate::sut::list_files(dir) {
         let _ = std::fs::remove_file(format!("{}/{}", dir, n));
@@ -203,25 +221,27 @@ fn seq_text(s: &[Step]) -> String {
 }
 
 pub fn run(rep: &Reporter, thorough: bool) -> Value {
-    let a = run_flavour(rep, if thorough { 7 } else { 5 }, true);
+    let a = run_flavour(rep, if thorough { 7 } else { 5 }, true, seed_files(), "two chunks, torn tail");
+    // a zero-length newest chunk: something an opener removes during recovery
+    let c = run_flavour(rep, if thorough { 5 } else { 4 }, true, seed_files_empty_newest(), "complete chunks + zero-length newest chunk");
     // a store open that FAILS after it took the lock (gap between chunks) must
     // release it: the same exploration on a directory no store can open
-    let b = run_flavour(rep, if thorough { 6 } else { 4 }, false);
+    let b = run_flavour(rep, if thorough { 6 } else { 4 }, false, seed_files_gap(), "middle chunk missing (no store can open it)");
     let mut out = a.clone();
     if let (Some(o), Some(bo)) = (out.as_object_mut(), b.as_object()) {
         for k in ["states", "transitions", "traces_validated_against_impl"] {
-            let n = o[k].as_u64().unwrap_or(0) + bo[k].as_u64().unwrap_or(0);
+            let n = o[k].as_u64().unwrap_or(0) + bo[k].as_u64().unwrap_or(0) + c[k].as_u64().unwrap_or(0);
             o.insert(k.to_string(), json!(n));
         }
         o.insert("unopenable_directory_flavour".to_string(), b.clone());
+        o.insert("empty_newest_chunk_flavour".to_string(), c.clone());
     }
     out
 }
 
-fn run_flavour(rep: &Reporter, depth: usize, store_opens: bool) -> Value {
+fn run_flavour(rep: &Reporter, depth: usize, store_opens: bool, seed: Vec<(String, Vec<u8>)>, flavour: &str) -> Value {
     let nproc = 3;
     let seqs = enumerate(depth, nproc, store_opens);
-    let seed = if store_opens { seed_files() } else { seed_files_gap() };
     let groups_n = 2 * std::thread::available_parallelism().map(|n| n.get()).unwrap_or(8);
     let steps = AtomicU64::new(0);
     let refused = AtomicU64::new(0);
@@ -255,8 +275,8 @@ fn run_flavour(rep: &Reporter, depth: usize, store_opens: bool) -> Value {
                         let mk = |key: &str, what: String| Violation {
                             prop: rep.prop.clone(),
                             key: key.to_string(),
-                            what: format!("{} | step {} of sequence [{}] | directory: {}", what, k + 1, seq_text(seq), if store_opens { "two chunks, torn tail" } else { "middle chunk missing (no store can open it)" }),
-                            replay: json!({"engine":"lockx","sequence": seq_text(seq), "step": k + 1, "directory": if store_opens { "torn-tail" } else { "missing-middle-chunk" }}),
+                            what: format!("{} | step {} of sequence [{}] | directory: {}", what, k + 1, seq_text(seq), flavour),
+                            replay: json!({"engine":"lockx","sequence": seq_text(seq), "step": k + 1, "directory": flavour}),
                         };
                         match cmd {
                             'D' => held[*c] -= 1,
